@@ -22,6 +22,7 @@ type c13Op struct {
 	Name string `json:"name,omitempty"`
 	Text string `json:"text,omitempty"`
 	Big  int    `json:"big,omitempty"` // description of this many bytes instead of Text
+	Idle bool   `json:"idle,omitempty"` // serve: with a short idle timeout; the following shutdown op waits for the timeout return instead
 }
 
 type c13Hist struct {
@@ -115,7 +116,7 @@ func genC13(rng *rand.Rand, jg *JGen, maxOps int, big bool) *c13Hist {
 			}
 			h.Ops = append(h.Ops, op)
 		case k < 8 && !serving:
-			h.Ops = append(h.Ops, c13Op{Op: "serve"})
+			h.Ops = append(h.Ops, c13Op{Op: "serve", Idle: rng.Intn(4) == 0})
 			serving = true
 		case serving:
 			h.Ops = append(h.Ops, c13Op{Op: "shutdown"})
@@ -155,6 +156,8 @@ func runC13Hist(r *fw.Run, h *c13Hist) {
 	st.descs["org.varlink.resolver"] = rd.VarlinkGetDescription()
 	log := newEvLog(r)
 	serving := false
+	idleServe := false
+	var keep *varlink.Connection
 	var done chan error
 	var addr string
 	var cancel context.CancelFunc
@@ -321,15 +324,20 @@ func runC13Hist(r *fw.Run, h *c13Hist) {
 				addr = "unix:" + filepath.Join(r.WorkDir, fmt.Sprintf("i%d", r.Seq()))
 			}
 			done = make(chan error, 1)
+			idleTimeout := time.Duration(0)
+			idleServe = op.Idle
+			if op.Idle {
+				idleTimeout = 60 * time.Millisecond
+			}
 			if h.UseListen {
-				go func(a string) { done <- svc.Listen(ctx, a, 0) }(addr)
+				go func(a string) { done <- svc.Listen(ctx, a, idleTimeout) }(addr)
 			} else {
 				if err := svc.Bind(ctx, addr); err != nil {
 					report("bind-failed", fmt.Sprintf("%s: Bind(%q): %v", when, addr, err))
 					cancel()
 					return
 				}
-				go func() { done <- svc.DoListen(ctx, 0) }()
+				go func() { done <- svc.DoListen(ctx, idleTimeout) }()
 			}
 			// wait for the listener, learn the port
 			dl := time.Now().Add(20 * time.Second)
@@ -355,7 +363,11 @@ func runC13Hist(r *fw.Run, h *c13Hist) {
 				c, err := varlink.NewConnection(cctx, addr)
 				if err == nil {
 					err = c.GetInfo(cctx, nil, nil, nil, nil, nil)
-					c.Close()
+					if err == nil && idleServe {
+						keep = c // held open until the idle period is meant to begin, so the service cannot time out in between
+					} else {
+						c.Close()
+					}
 				}
 				cl()
 				if err == nil {
@@ -363,6 +375,19 @@ func runC13Hist(r *fw.Run, h *c13Hist) {
 					break
 				}
 				time.Sleep(300 * time.Microsecond)
+			}
+			if !ok && idleServe {
+				select {
+				case e := <-done:
+					if _, isTo := e.(varlink.ServiceTimeoutError); isTo {
+						// the machine was too slow to connect within the idle period: the service is simply not serving any more
+						r.Count("idle_serve_expired_before_first_client", 1)
+						cancel()
+						continue
+					}
+					done <- e
+				default:
+				}
 			}
 			if !ok {
 				report("not-serving", fmt.Sprintf("%s: no GetInfo round trip succeeded within 20 s", when))
@@ -372,6 +397,28 @@ func runC13Hist(r *fw.Run, h *c13Hist) {
 			serving = true
 		case "shutdown":
 			if !serving {
+				continue
+			}
+			if idleServe {
+				// no client is connected any more: the serving call ends by its idle timeout
+				if keep != nil {
+					keep.Close()
+					keep = nil
+				}
+				select {
+				case e := <-done:
+					if _, isTo := e.(varlink.ServiceTimeoutError); !isTo {
+						report("idle-serve-return", fmt.Sprintf("%s: serving with an idle timeout returned %v", when, e))
+					}
+					r.Count("serve_periods_ended_by_idle_timeout", 1)
+				case <-time.After(30 * time.Second):
+					report("no-return-after-idle", fmt.Sprintf("%s: serving with a 60 ms idle timeout did not stop within 30 s although no client is connected", when))
+					svc.Shutdown()
+					cancel()
+					return
+				}
+				cancel()
+				serving = false
 				continue
 			}
 			svc.Shutdown()
@@ -388,6 +435,9 @@ func runC13Hist(r *fw.Run, h *c13Hist) {
 		if serving {
 			observe(when)
 		}
+	}
+	if keep != nil {
+		keep.Close()
 	}
 	if serving {
 		svc.Shutdown()
